@@ -330,7 +330,7 @@ type ledger struct {
 }
 
 func scenario(c config) *explore.Scenario {
-	sc := &explore.Scenario{Name: c.name, PB: 0, NoCache: true}
+	sc := &explore.Scenario{Name: c.name, PB: 0, NoCache: true, Single: true}
 	sc.Setup = func(x *vrt.Exec) {
 		x.Data = &ledger{}
 		x.MaxSteps = 40_000_000
